@@ -28,7 +28,7 @@ def ob_backtracking_step(n, mode, iters, hist, maxh=2):
             ProjectedGradientDescentBacktracking, ProjectedGradientDescentBacktrackingOption)
         x0 = vec_of(I, "x", n)
         mu, gamma, eps = I["mu"], I["gamma"], I["eps"]
-        loss = UFLoss(n)
+        loss = UFLoss(n, max_points=line_search_limit(iters, MAXH))
         P = uf_proj(n)
         algo = ProjectedGradientDescentBacktracking(func_proj=P)
         opt = ProjectedGradientDescentBacktrackingOption(var_start=x0, mu=mu, gamma=gamma, eps=eps, max_iteration_optimization=iters,
@@ -36,25 +36,11 @@ def ob_backtracking_step(n, mode, iters, hist, maxh=2):
                                                         num_history_stopping_criterion_gradient_descent=2)
         algo.set_from_loss(loss)
         algo.set_from_option(opt)
-        # bound the alpha-halving loop: deeper than MAXH halvings is outside the claim
-        import quara.minimization_algorithm.projected_gradient_descent_backtracking as M
-        depth = {"n": 0}
-        orig = ProjectedGradientDescentBacktracking._is_doing_for_alpha
-
-        def bounded(self, x_prev, y_prev, alpha, gamma_, lf):
-            if alpha == 1.0:
-                depth["n"] = 0          # a new outer iteration starts its line search at alpha = 1
-            r = orig(self, x_prev, y_prev, alpha, gamma_, lf)
-            if r:
-                depth["n"] += 1
-                if depth["n"] > MAXH:
-                    raise core.Outside("alpha halving deeper than the explored bound")
-            return r
-        ProjectedGradientDescentBacktracking._is_doing_for_alpha = bounded
-        try:
-            res = quiet(algo.optimize, loss, None, opt, on_iteration_history=hist)
-        finally:
-            ProjectedGradientDescentBacktracking._is_doing_for_alpha = orig
+        # bound the alpha-halving loop: deeper than MAXH halvings is outside the claim.  The bound is placed on the harness' own loss
+        # object (distinct evaluation points) and on the recorded step sizes, never on a private method of the algorithm
+        res = quiet(algo.optimize, loss, None, opt, on_iteration_history=hist)
+        if hist:
+            outside_if_deeper(res.alpha, MAXH)
         out = []
         if not hist:
             return [Holds("result is an array of n variables", len(flat(res.value)) == n)]
@@ -128,22 +114,8 @@ def ob_option_untouched(n, algo_name):
         before = {k: v for k, v in vars(opt).items() if not isinstance(v, np.ndarray)}
         algo.set_from_loss(loss)
         algo.set_from_option(opt)
-        import quara.minimization_algorithm.projected_gradient_descent_backtracking as BB
-        orig = BB.ProjectedGradientDescentBacktracking._is_doing_for_alpha
-        cnt = {"n": 0}
-
-        def bounded(self, x_prev, y_prev, alpha, gamma_, lf):
-            r = orig(self, x_prev, y_prev, alpha, gamma_, lf)
-            if r:
-                cnt["n"] += 1
-                if cnt["n"] > 2:
-                    raise core.Outside("alpha halving deeper than the explored bound")
-            return r
-        BB.ProjectedGradientDescentBacktracking._is_doing_for_alpha = bounded
-        try:
-            quiet(algo.optimize, loss, None, opt)
-        finally:
-            BB.ProjectedGradientDescentBacktracking._is_doing_for_alpha = orig
+        loss.max_points = line_search_limit(1, 2)
+        quiet(algo.optimize, loss, None, opt)
         after = {k: v for k, v in vars(opt).items() if not isinstance(v, np.ndarray)}
         out = []
         for k in sorted(before):
